@@ -444,9 +444,9 @@ pub fn run(ctx: &Ctx, rep: &Report) -> Meta {
     let nmax = ctx.tier.pick(3usize, 5usize);
     let fixed = c17::fixed_cases(ctx, nmax);
     let one = |rep: &Report, ck: &str, c: &Case| -> CheckResult {
-        match build_view::<CL1024Sha256>(c, &sh) {
-            Ok(v) => check_view::<CL1024Sha256>(rep, ck, c, &v),
-            Err(e) => rep.fail(ck, "honest-generation-failed", e, json!({"case": c})),
+        match c17::view_or_skip::<CL1024Sha256>(rep, ck, c, &sh)? {
+            Some(v) => check_view::<CL1024Sha256>(rep, ck, c, &v),
+            None => Ok(()),
         }
     };
     par_items(ctx, rep, "every-hidden-set", &fixed, |c| one(rep, "every-hidden-set", c));
@@ -533,7 +533,7 @@ pub fn run(ctx: &Ctx, rep: &Report) -> Meta {
         }
     }
     Meta {
-        rule: "honest issuance proofs (with / without trusted commitment) and signature proofs for EVERY non-empty hidden set (n = 1..3 quick / 1..5 thorough) plus generated cases, high-entropy 256-bit attributes, issuers with 0..3 more bases than attributes, a third of the generations right after a refused request (hidden position out of range) on the same thread; \
+        rule: "honest issuance proofs (with / without trusted commitment) and signature proofs for EVERY non-empty hidden set (n = 1..3 quick / 1..5 thorough) plus generated cases, issuance proofs whose hidden positions are listed in descending / mixed order (judged when the library goes through with that spelling), high-entropy 256-bit attributes, issuers with 0..3 more bases than attributes, a third of the generations right after a refused request (hidden position out of range) on the same thread; \
                attacker program: every Fiat-Shamir challenge recomputable from public data (stored ones, C and C mod 2^128 of the interval proofs, and the (t, s1, s2) proofs' challenges recomputed as the verifier does and validated against the verification equation); \
                no response is congruent to 0 or 1 modulo a challenge (unblinded response, no secret needed); for every integer leaf s, every such challenge c and every other leaf s': | floor(s/c) - x | >= 2^64 and | floor(s/s') - x | >= 2^64 for every secret x the prover holds (hidden attributes, e, s, the randomness of C and of the trusted commitment); \
                additionally, with hidden attributes forced to 0 / 1, the response answering for each hidden attribute divided by its own challenge (sound for small values); for every square proof of every embedded range proof the public inverse map floor((floor(d/c)^2 + aa)/2^T), floor((bb - floor(d/c)^2)/2^T) must be >= 2^64 away from the committed value (hidden attribute, e, r); \
@@ -563,8 +563,8 @@ pub fn replay(ctx: &Ctx, rep: &Report, ck: &str, case: &Value) -> CheckResult {
     }
     let c: Case = serde_json::from_value(case["case"].clone()).map_err(|e| Fail { check: ck.into(), site: "replay-parse".into(), msg: e.to_string(), case: case.clone() })?;
     let sh = c17::shared(ctx, c.kind % 3 == 1);
-    match build_view::<CL1024Sha256>(&c, &sh) {
-        Ok(v) => check_view::<CL1024Sha256>(rep, ck, &c, &v),
-        Err(e) => rep.fail(ck, "honest-generation-failed", e, json!({"case": c})),
+    match c17::view_or_skip::<CL1024Sha256>(rep, ck, &c, &sh)? {
+        Some(v) => check_view::<CL1024Sha256>(rep, ck, &c, &v),
+        None => Ok(()),
     }
 }
